@@ -77,6 +77,9 @@ func NewConn(ctx context.Context, conn net.Conn, options ...Option) (outConn *Co
 	if record[0] != 22 { // TLS Handshake
 		return nil, fmt.Errorf("%w: content type %d != 22 (%q)", ErrUnexpectedMessage, record[0], record[:5])
 	}
+	if record, err = readFragments(conn, record); err != nil {
+		return nil, err
+	}
 	outConn = &Conn{
 		Conn:       conn,
 		retryCount: new(atomic.Int32),
@@ -345,6 +348,11 @@ func (c *Conn) Read(b []byte) (int, error) {
 		case r[0] == 22 && len(r) > 5 && r[5] == 1 && c.retryCount.Load() == 1:
 			c.debugf("Handshake Retried ClientHello\n")
 			c.readPassthrough = true
+			if r, err = readFragments(c.Conn, r); err != nil {
+				c.readErr = err
+				convertErrorsToAlerts(c, err)
+				return 0, err
+			}
 			_, inner, err := c.handleClientHello(r, true)
 			if err != nil {
 				c.readErr = err
